@@ -296,6 +296,9 @@ def compare_transcripts(a, b):
                 return n, ncases, skipped, {"line": i + 1, "case": cid, "a": x.strip()[:400], "b": y.strip()[:400]}
         if len(la) != len(lb):
             return n, ncases, skipped, {"line": min(len(la), len(lb)) + 1, "case": cid, "a": f"{len(la)} lines", "b": f"{len(lb)} lines"}
+    extra = next(sb, None)
+    if extra is not None:
+        return n, ncases, skipped, {"line": 0, "case": None, "a": "(end of transcript)", "b": f"extra case {extra[0]}"}
     return n, ncases, skipped, None
 
 
